@@ -43,11 +43,11 @@ T["C18"] = ("NaN-watch contracts on all bs_* price/delta functions + certain-pay
 T["C08"] = ("finite-difference oracle monitor on every Greek of every BS module/function + autogreek on random user pricers",
             "delta/gamma/vega/theta of the four pricing modules and of the functional forms are compared with 4th-order Richardson central differences of the same "
             "object's float64 price over sweeps dominated by t != 1 and K != 1 (incl. barrier already reached with the spot back below); the automatic Greeks are run on "
-            "randomly parameterised smooth pricers under every accepted parameterisation. Points where two FD step sizes disagree are skipped and counted.", "4 C08")
+            "randomly parameterised smooth pricers under every accepted parameterisation (also with create_graph). The oracle uses three step sizes (two successive extrapolations; their difference is its uncertainty) and judges at the strike value the library holds; arguments must come back unchanged, the same tensor object for spot and running maximum must equal an equal copy, and shared 0-dim / one-element volatility or maturity must give the full-shape values point by point.", "4 C08 / 8.3")
 T["C19"] = ("bracketing-condition postcondition on every bisect call + closed-form-inverse and implied-volatility round-trip monitors",
             "Every call of bisect (all aliases, incl. those made by quadratic_cvar, HedgeLoss.cash and implied_volatility) is judged on the real function: result inside the "
             "bracket, a root within precision (direction-aware, noise-aware), evaluation count bounded by max_iter, RuntimeError only when precision is unreachable; analytic "
-            "monotone families are compared with their closed-form inverse and implied volatility is round-tripped for the four modules. One known finding (python-float brackets searched in float32).", "4 C19")
+            "monotone families are compared with their closed-form inverse, exact iteration budgets on dyadic brackets must return / raise as documented, implied volatility is round-tripped for the four modules (also with a caller-chosen bracket, and with arguments omitted on derivative-backed modules vs given explicitly). Calls whose function is not elementwise are outside the domain. One known finding (python-float brackets searched in float32).", "4 C19 / 8.3")
 T["C02"] = ("information-flow sanitizer: NaN/scale/resample poisoning of future columns of every buffer, bit-identical prefix oracle",
             "For randomised hedging pipelines (all stock models, derivative types, hedge lists, built-in and user models, both evaluation branches, grad on/off) and for every "
             "registered feature, every buffer is poisoned at columns > t and the real computation repeated; hedge and feature prefixes must be bit-identical and the last "
@@ -61,13 +61,13 @@ T["C11"] = ("postcondition contracts on every generate_* return and on simulate(
             "sweeps and re-simulation histories is judged: shape, first column = requested or default initial state, finiteness, positivity (zero only as underflow), variance >= 0, "
             "volatility = sqrt(variance), dtype, equal buffer shapes, documented key set, no surviving old tensor. Three known findings.", "4 C11")
 T["C17"] = ("reference-model monitor: abstract dtype state machine stepped beside the real instrument, exhaustive operation sequences to bounded depth",
-            "All sequences of length <= 2 (quick) / 3 (thorough) over 14 cast / simulate / register_buffer / default-dtype / rejected-int operations are enumerated for each of "
-            "8 primaries (two constructions) and 3 derivative wrappers, plus random sequences of length 4-10; after every operation declared dtype and every buffer dtype must "
-            "agree with the reference state machine, simulations must be produced in the declared dtype, and derived quantities must carry it.", "4 C17 / appendix B")
+            "All sequences of length <= 2 (quick) / 3 (thorough) over 17 cast (incl. alias spellings) / simulate / register_buffer (float, integer, second name of a held series) / default-dtype / rejected-int operations are enumerated for each of "
+            "8 primaries (two constructions) and 4 derivative wrappers (one on two underliers), plus random sequences of length 4-10; after every operation declared dtype and every buffer dtype must "
+            "agree with the reference state machine, simulations must be produced in the declared dtype, and derived quantities (payoff, features, listed price, hedges of cast and never-cast hedgers, P&L, losses and cash amounts of four criteria incl. half precisions, prices) must carry it.", "4 C17 / appendix B / 8.3")
 T["C16"] = ("tensor write-sanitizer (identity + autograd version counter + byte hash) on all instrument buffers and functional arguments; fresh-clone differential over operation sequences",
             "Every public computation (payoffs, every feature for one step and all steps, listed prices, BS modules, autogreek, criteria, hedger methods, every public function of "
             "pfhedge.nn.functional) runs under a sanitizer that re-checks every buffer of every live primary and every tensor argument at its exit; random interleavings of simulate / "
-            "compute_* / price / fit / to() over several derivatives on one hedger are compared bit for bit with a fresh hedger holding copied parameters.", "4 C16")
+            "compute_* / price / fit / to() over several derivatives on one hedger are compared bit for bit with a fresh hedger built from never-used feature copies holding the current parameters (also with two hedgers on one feature list, kept bindings, delist/relist); generic drivers compare same-object arguments with equal copies, objects whose public parameters were reassigned with freshly constructed ones, and a module's result on a second input with a fresh module's.", "4 C16 / 8.3")
 T["C06"] = ("certainty-equivalence contract on every HedgeLoss.cash (subclass tree) + tap-based contract on Hedger.price",
             "Every cash() call (closed forms and the default search, incl. user subclasses) is judged: loss(constant sample at cash) = loss(sample) within search precision x local "
             "slope, min <= cash <= max, cash <= mean for risk-averse criteria, quadratic CVaR cash = -risk; Hedger.price is judged against -cash(portfolio, payoff) recomputed from the "
